@@ -117,6 +117,11 @@ class ExprGen:
         self.feats.add(f"nary:{f}")
         if f in ("pow", "np.power"):
             return f"{f}(1.0 + {a} * {a}, {rng.choice(['2', '0.5'])})"
+        if f in ("min", "max") and rng.random() < 0.5:
+            # n-ary with more than two arguments; every argument can be the extremum somewhere
+            more = ", ".join(self.atom(names) for _ in range(rng.randint(1, 2)))
+            self.feats.add("nary_with_3_or_4_arguments")
+            return f"{f}({a}, {b}, {more})"
         return f"{f}({a}, {b})"
 
 
